@@ -33,6 +33,9 @@ const SCAN_COLS: u32 = 42;
 enum Op {
     SetValue { c: u32, r: u32, v: &'static str },
     SetCell { c: u32, r: u32, v: &'static str, st: u8 },
+    /// set_cell with a cell whose own Coordinate object was given as text WITH $ markers ("$B$3"): the slot is B3 and
+    /// the stored cell reports B3, without markers
+    SetCellAbs { c: u32, r: u32 },
     Remove { c: u32, r: u32 },
     SetStyle { c: u32, r: u32, st: u8 },
     StyleRange { range: &'static str, st: u8 },
@@ -52,6 +55,7 @@ impl Op {
         match self {
             Op::SetValue { .. } => "get_cell_mut.set_value",
             Op::SetCell { .. } => "set_cell",
+            Op::SetCellAbs { .. } => "set_cell(absolute-coordinate-text)",
             Op::Remove { .. } => "remove_cell",
             Op::SetStyle { .. } => "set_style",
             Op::StyleRange { range, .. } => {
@@ -79,6 +83,7 @@ impl Op {
         match self {
             Op::SetValue { c, r, v } => json!({"op":"get_cell_mut.set_value","at": a1(*c,*r), "value": v}),
             Op::SetCell { c, r, v, st } => json!({"op":"set_cell","at": a1(*c,*r), "value": v, "style": st}),
+            Op::SetCellAbs { c, r } => json!({"op":"set_cell","cell_coordinate_given_as": format!("${}${}", umya_spreadsheet::helper::coordinate::string_from_column_index(c), r), "value": "abs"}),
             Op::Remove { c, r } => json!({"op":"remove_cell","at": a1(*c,*r)}),
             Op::SetStyle { c, r, st } => json!({"op":"set_style","at": a1(*c,*r), "style": st}),
             Op::StyleRange { range, st } => json!({"op":"set_style_by_range","range": range, "style": st}),
@@ -123,6 +128,7 @@ fn full_alphabet() -> Vec<Op> {
         Op::SetCell { c: 2, r: 1, v: "s", st: 0 },
         Op::SetCell { c: 2, r: 2, v: "", st: 0 }, // overwrite / create with a default cell
         Op::SetCell { c: FAR.0 - 1, r: FAR.1 + 1, v: "g", st: 2 },
+        Op::SetCellAbs { c: 2, r: 3 },
         // remove_cell
         Op::Remove { c: 1, r: 1 },
         Op::Remove { c: 2, r: 2 },
@@ -227,6 +233,12 @@ fn apply(ws: &mut Worksheet, op: &Op) {
             if *st > 0 {
                 cell.set_style(style(*st));
             }
+            ws.set_cell(cell);
+        }
+        Op::SetCellAbs { c, r } => {
+            let mut cell = Cell::default();
+            cell.get_coordinate_mut().set_coordinate(format!("${}${}", umya_spreadsheet::helper::coordinate::string_from_column_index(c), r));
+            cell.set_value("abs");
             ws.set_cell(cell);
         }
         Op::Remove { c, r } => {
@@ -572,6 +584,12 @@ fn check(obs: &Obs, ws: &Worksheet, tags: &[String], out: &mut Vec<Violation>) {
     for (k, own) in &obs.cells {
         if k != own {
             o.add("own-coordinate", "key!=own", format!("the cell stored under {} reports coordinate {}", fmt_rc(k), fmt_rc(own)));
+        }
+    }
+    //    ... and it is a position, not a reference: no $ markers
+    for (k, c) in ws.get_collection_to_hashmap() {
+        if *c.get_coordinate().get_is_lock_col() || *c.get_coordinate().get_is_lock_row() {
+            o.add("own-coordinate", "carries-lock-markers", format!("the cell stored under {} reports its coordinate as {:?}", fmt_rc(k), c.get_coordinate().get_coordinate()));
         }
     }
     // 2. lookup by coordinate: found exactly when it exists, and reports that coordinate
